@@ -72,7 +72,12 @@ def count(domain, f):
 
 # ------------------------------------------------------------------------------------------- accessors
 def is_obj(o):
-    return isinstance(o, PObj)
+    """an instance of a user class (engine object, or a real object on a replay / cross-check run)"""
+    if isinstance(o, PObj):
+        return True
+    if is_sym(o) or isinstance(o, (PList, PDict, PSet, JsonText, type)) or o is None:
+        return False
+    return hasattr(o, '__dict__') and not isinstance(o, (bool, int, float, str, list, tuple, dict, set))
 
 
 def cls_of(o):
@@ -362,7 +367,11 @@ def int_ok(s):
 
 def int_val(s):
     if isinstance(s, str):
-        return int(s)
+        # total, like the uninterpreted function it stands for: a clause must guard its use with int_ok / a pattern
+        try:
+            return int(s)
+        except ValueError:
+            return 0
     from . import models
     return mk(models.INT_VAL(s.t), 'int')
 
